@@ -132,6 +132,81 @@ pub fn check_dml(kind: Kind, sys: &DSys, spec: &DSpec) -> Vec<Fail> {
     fails
 }
 
+/// statements binding MANY values (an IN list, a multi-row INSERT): every count from 1 to 12 and the counts on both sides
+/// of 100, 256, 1000 (thorough: 10000, 65536) - the numbered placeholders run through every number of digits. Counts
+/// ascend; the first failing count of a (shape, dialect, signature) is reported.
+pub fn many_value_counts(thorough: bool) -> Vec<usize> {
+    let mut v: Vec<usize> = (1..=12).collect();
+    v.extend([99, 100, 101, 255, 256, 257, 999, 1000, 1001]);
+    if thorough {
+        v.extend([9999, 10000, 10001, 65535, 65536]);
+    }
+    v
+}
+
+pub enum ManyStmt {
+    Sel(SelectStatement),
+    Ins(InsertStatement),
+}
+
+pub fn many_values_statement(shape: usize, n: usize) -> (ManyStmt, Vec<V>) {
+    let vals: Vec<i64> = (0..n as i64).map(|i| 700000 + i).collect();
+    let want: Vec<V> = vals.iter().map(|i| V::Int(*i)).collect();
+    let al = |s: &str| Alias::new(s);
+    match shape {
+        0 => (ManyStmt::Sel(Query::select().column(al("a")).from(al("t1")).and_where(Expr::col(al("a")).is_in(vals.clone())).to_owned()), want),
+        _ => {
+            let mut q = Query::insert();
+            q.into_table(al("t1")).columns([al("a"), al("b"), al("id")]);
+            let mut rows = vals.chunks(3);
+            let mut w = vec![];
+            for r in &mut rows {
+                let mut cells: Vec<SimpleExpr> = r.iter().map(|i| Expr::val(*i).into()).collect();
+                w.extend(r.iter().map(|i| V::Int(*i)));
+                while cells.len() < 3 {
+                    cells.push(Expr::col(al("id")).into());
+                }
+                q.values_panic(cells);
+            }
+            (ManyStmt::Ins(q), w)
+        }
+    }
+}
+
+fn many_values(rep: &Report) -> u64 {
+    use crate::report::Violation;
+    let mut n = 0;
+    for shape in 0..2usize {
+        for d in DIALECTS {
+            let mut reported: std::collections::HashSet<String> = Default::default();
+            for &k in &many_value_counts(rep.thorough()) {
+                n += 1;
+                let (q, want) = many_values_statement(shape, k);
+                let r = catch(|| match (&q, d) {
+                    (ManyStmt::Sel(q), Dialect::Mysql) => q.build(MysqlQueryBuilder),
+                    (ManyStmt::Sel(q), Dialect::Postgres) => q.build(PostgresQueryBuilder),
+                    (ManyStmt::Sel(q), Dialect::Sqlite) => q.build(SqliteQueryBuilder),
+                    (ManyStmt::Ins(q), Dialect::Mysql) => q.build(MysqlQueryBuilder),
+                    (ManyStmt::Ins(q), Dialect::Postgres) => q.build(PostgresQueryBuilder),
+                    (ManyStmt::Ins(q), Dialect::Sqlite) => q.build(SqliteQueryBuilder),
+                });
+                let fails = match r {
+                    Err(p) => vec![Fail::new("render-panic", format!("{}: build panicked: {p}", d.name()))],
+                    Ok((sql, vals)) => check_built(d, &sql, &vals.0, &want),
+                };
+                for f in fails {
+                    rep.raw_failures.inc();
+                    if reported.insert(f.sig.clone()) {
+                        let det: String = f.detail.chars().take(500).collect();
+                        rep.violation(Violation { key: format!("many-values|{}|{}|{}|{} values", if shape == 0 { "in-list" } else { "insert-rows" }, d.name(), f.sig, k), what: format!("{} values: {}", k, det), case: json!({"many_values": k, "shape": shape, "dialect": d.name()}) });
+                    }
+                }
+            }
+        }
+    }
+    n
+}
+
 /// every Value variant (all features) through several statement positions: `build` must hand back exactly the
 /// values that were given - same variant, same payload, in reading order (Debug equality, so NaN payloads count)
 fn value_passthrough(rep: &Report) -> u64 {
@@ -269,6 +344,8 @@ pub fn run(rep: &Arc<Report>) {
         outcomes += s2.outcomes;
         exhaustive &= s2.exhaustive;
     }
+    let mv = many_values(rep);
+    rep.set("many_values_cases", json!(mv));
     let vp = value_passthrough(rep);
     rep.set("value_passthrough_cases", json!(vp));
     let et = escaped_mark_templates(rep);
